@@ -65,7 +65,7 @@ DiffTypeOutputIterator equally_split(DiffType n, size_t p,
         *s++ = start;
         start += (static_cast<DiffType>(i) < split) ? (chunk_length + 1) :
                                                       chunk_length;
-        if (start >= n)
+        if (n > 0 && start >= n)
             start = n - 1;
     }
     *s++ = n;
